@@ -12,9 +12,13 @@
    && single_lock gen_graph = true] (on the lock kind and call structure read
    from lysosome.py on every run) lives in coq/gen/Gen_C13.v; it is the
    hypothesis of c13_every_call_returns_threads, instantiated in Examples.v
-   (gen_no_deadlock). *)
+   (gen_no_deadlock).  A second generated obligation [Gen_C13_calls_ok :
+   bounded_calls gen_graph && atomic_calls gen_graph = true] (no unbounded loop
+   and no recursion in the class; one critical section per call, the queue only
+   written inside one) is the hypothesis of c13_calls_are_finite_and_atomic,
+   instantiated in Examples.v (gen_calls_finite_atomic). *)
 From Coq Require Import ZArith List Bool Permutation String.
-From Verif Require Import C13.Model C13.Proofs.
+From Verif Require Import C13.Model C13.Proofs C13.Threads.
 Import ListNotations.
 Open Scope Z_scope.
 
@@ -220,3 +224,144 @@ Theorem c13_every_call_returns_overlapping :
   forall cfg cs o, exists cs' r, cstep cfg cs o = (cs', r).
 Proof. exact cstep_total. Qed.
 Print Assumptions c13_every_call_returns_overlapping.
+
+(* ---------------------------------------------------------------------- *)
+(* The threshold reassigned at run time.  auto_digest_threshold is a plain
+   public attribute; [rrun cfg ops] is the (configuration in force, state)
+   after a history [ops] over  ROp (any step of the interleaved semantics) |
+   SetThr t  (lysosome.auto_digest_threshold = t), every call running under
+   the threshold in force when it is made (Model.v, Part 1d).  The statements
+   are those of the c13_overlap_* theorems above, for that state: the
+   predicates *_cs (Proofs.v) are their bodies with the state as a parameter
+   (Examples.v, cs_statements_are_the_overlap_statements). *)
+
+Theorem c13_reconf_queue_bounded :
+  forall cfg ops, 2 <= max_queue cfg ->
+    Z.of_nat (List.length (queue (c_base (snd (rrun cfg ops))))) <= max_queue cfg.
+Proof. exact reconf_queue_bounded. Qed.
+Print Assumptions c13_reconf_queue_bounded.
+
+Theorem c13_reconf_conservation :
+  forall cfg ops, overlap_conservation_cs cfg (snd (rrun cfg ops)).
+Proof. exact reconf_conservation. Qed.
+Print Assumptions c13_reconf_conservation.
+
+Theorem c13_reconf_reported_and_accounted :
+  forall cfg ops, reported_once_cs (snd (rrun cfg ops)) /\ results_cs cfg (snd (rrun cfg ops)).
+Proof. exact (fun cfg ops => conj (reconf_reported_once cfg ops) (reconf_results cfg ops)). Qed.
+Print Assumptions c13_reconf_reported_and_accounted.
+
+Theorem c13_reconf_toxic :
+  forall cfg ops, overlap_toxic_cs cfg (snd (rrun cfg ops)).
+Proof. exact reconf_toxic. Qed.
+Print Assumptions c13_reconf_toxic.
+
+(* every step of a reconfigured history yields a configuration, a state and an
+   outcome; and without reassignments it is the interleaved history *)
+Theorem c13_reconf_returns_and_refines :
+  (forall cfg cs o, exists cfg' cs' r, rstep cfg cs o = (cfg', cs', r)) /\
+  (forall cfg ops, rrun cfg (map ROp ops) = (cfg, crun cfg ops)).
+Proof. exact (conj reconf_total reconf_refines). Qed.
+Print Assumptions c13_reconf_returns_and_refines.
+
+(* ---------------------------------------------------------------------- *)
+(* Threads ("from any number of threads ... all interleavings").  Any number
+   of threads, thread i with its own list of calls [nth i progs], started on
+   the object reached by any (reconfigured) history [pre], under the
+   configuration then in force; [sched] says which thread moves next (Model.v,
+   Part 1c: one step = the critical section of a call, or one digester call of
+   a digest() in progress; scheduling a thread that has finished is a no-op).
+   [progs] and [sched] are arbitrary. *)
+
+(* Every run of threads under every schedule is an interleaved history of Part
+   1b continuing [pre]. *)
+Theorem c13_threads_are_interleavings :
+  forall cfg pre progs sched,
+    let st := rrun cfg pre in
+    exists ops, t_cs (trun (fst st) (mkT (snd st) progs) sched) = crun_from (fst st) (snd st) ops.
+Proof. exact threads_are_interleavings. Qed.
+Print Assumptions c13_threads_are_interleavings.
+
+(* After every step of every thread under every schedule - in particular after
+   every call of every thread - the queue holds at most max_queue_size items. *)
+Theorem c13_threads_queue_bounded :
+  forall cfg pre progs sched, 2 <= max_queue cfg ->
+    let st := rrun cfg pre in
+    Z.of_nat (List.length (queue (c_base (t_cs (trun (fst st) (mkT (snd st) progs) sched))))) <= max_queue cfg.
+Proof. exact threads_queue_bounded. Qed.
+Print Assumptions c13_threads_queue_bounded.
+
+(* ... every ingested item is exactly one of queued, taken by a digest() call
+   that has not handed it to a digester yet, or fated (one fate), the counters
+   are the ghost counts; every digestion error is listed in exactly one
+   DigestResult and every result accounts for exactly the items its call took;
+   the toxic statements. *)
+Theorem c13_threads_conservation :
+  forall cfg pre progs sched,
+    let st := rrun cfg pre in
+    let cs := t_cs (trun (fst st) (mkT (snd st) progs) sched) in
+    overlap_conservation_cs cfg cs /\ reported_once_cs cs /\ results_cs cfg cs /\ overlap_toxic_cs cfg cs.
+Proof.
+  exact (fun cfg pre progs sched =>
+           conj (threads_conservation cfg pre progs sched)
+          (conj (threads_reported_once cfg pre progs sched)
+          (conj (threads_results cfg pre progs sched) (threads_toxic cfg pre progs sched)))).
+Qed.
+Print Assumptions c13_threads_conservation.
+
+(* Every call of every thread returns, whatever the schedule: at every point
+   (1) a thread that has something left to do can move - it is never blocked -
+       and its move is a step of a call, after which strictly less [work] is
+       left (work = calls and ingests not yet made + items queued + items in
+       flight);
+   (2) scheduling a thread that has nothing left changes nothing;
+   (3) so the steps a schedule really makes, plus the work left after it, are
+       at most the work at the start: no schedule, fair or not, keeps the
+       threads busy for more than [work] steps;
+   (4) and when no work is left every thread has made all its calls and none
+       is inside a digest(). *)
+Theorem c13_threads_every_call_returns :
+  forall cfg pre progs sched,
+    let st := rrun cfg pre in
+    let cfg' := fst st in
+    let ts0 := mkT (snd st) progs in
+    let ts := trun cfg' ts0 sched in
+    (forall i, busy ts i = true ->
+       snd (tstep cfg' ts i) <> CBad /\ (work (fst (tstep cfg' ts i)) < work ts)%nat) /\
+    (forall i, busy ts i = false -> tstep cfg' ts i = (ts, CBad)) /\
+    (real_steps cfg' ts0 sched + work ts <= work ts0)%nat /\
+    (work ts = 0%nat -> all_done ts = true).
+Proof. exact threads_return_proof. Qed.
+Print Assumptions c13_threads_every_call_returns.
+
+(* Every call is a finite program with one critical section.  For ANY call
+   graph that passes the two decidable checks (regenerated from lysosome.py and
+   discharged on every run: Gen_C13_calls_ok): no method has a loop whose
+   length is not bounded by a list it iterates over, the unfolding of a call
+   never runs out of fuel - more fuel gives the same instruction list, so the
+   lock machine runs the whole call and not a truncation of it -, and the
+   call goes through at most one outermost critical section (what makes "one
+   call = one atomic step on the queue" the right granularity above). *)
+Theorem c13_calls_are_finite_and_atomic :
+  forall g, bounded_calls g && atomic_calls g = true ->
+    forall mi fuel, In mi g -> (S (List.length g) <= fuel)%nat ->
+      m_loops mi = [] /\
+      compile g fuel (m_name mi) = compile g (S (List.length g)) (m_name mi) /\
+      (osec 0 (compile g fuel (m_name mi)) <= 1)%nat.
+Proof. exact finite_atomic_calls. Qed.
+Print Assumptions c13_calls_are_finite_and_atomic.
+
+(* The lock machine stops: with finitely many threads (N), a run of n steps
+   has executed exactly n of their instructions, so no run is longer than the
+   programs together; and when nothing is left every thread has finished.
+   With c13_every_call_returns_lock_machine (a configuration with an
+   unfinished thread is never stuck): every maximal run ends with every call
+   of every thread returned. *)
+Theorem c13_lock_machine_terminates :
+  forall k (progs : nat -> list instr) N,
+    (forall i, (N <= i)%nat -> progs i = []) ->
+    forall n m, msteps k n (minit progs) m ->
+      (n + code_left N m = code_left N (minit progs))%nat /\
+      (code_left N m = 0%nat -> forall i, m_code m i = []).
+Proof. exact lock_machine_terminates. Qed.
+Print Assumptions c13_lock_machine_terminates.
